@@ -146,6 +146,23 @@ def main():
     pairs = list(P.get('contracts', []))
     os.environ['PYVC_EXCLUSIONS'] = json.dumps({oid: [kf['id'], kf['exclude']] for oid, kf in kf_obl.items()})
     results = verify.run_contracts(pairs) if pairs else []
+    # an `unknown` is a statement about the solver budget, not about the code: contracts with an open obligation are
+    # run once more, one at a time and with a six-fold budget, before anything is reported as undecided
+    again = [(i, pairs[i]) for i, r in enumerate(results)
+             if any(o['verdict'] == 'unknown' for o in r.get('obligations', {}).values())]
+    if again:
+        env = dict(sub_env(), PYVC_TIMEOUT_MS='60000', PYTHONPATH=ROOT)
+        for i, (modname, cid) in again:
+            code = ('import json,sys; sys.path.insert(0, %r); from pyvc import verify; '
+                    'print(json.dumps(verify.run_contracts([(%r, %r)], jobs=1)[0], default=str))' % (ROOT, modname, cid))
+            try:
+                p = subprocess.run([sys.executable, '-c', code], cwd=ROOT, env=env, capture_output=True, text=True,
+                                   timeout=3000)
+                r2 = json.loads(p.stdout.strip().split('\n')[-1])
+                r2['retried_with_larger_budget'] = True
+                results[i] = r2
+            except Exception:
+                pass
     obligations = {}
     undecided = []
     functions = []
